@@ -842,12 +842,18 @@ func filterAndScoreFuzzyMatch(items []protocol.CompletionItem, query string, fuz
 		return filterByPrefix(items, query)
 	}
 
-	queryForSegment := strings.TrimSuffix(query, ":")
+	queryForSegment, colonTyped := strings.CutSuffix(query, ":")
 
 	var result []scoredItem
 	for _, item := range items {
-		if strings.Contains(item.Label, ":") {
-			if score := fuzzyMatchScoreBySegments(item.Label, queryForSegment); score > 0 {
+		if lastColon := strings.LastIndex(item.Label, ":"); lastColon != -1 {
+			segments := item.Label
+			if colonTyped {
+				// the typed colon needs a colon of the label after the matched segment:
+				// only the segments before the last one qualify
+				segments = item.Label[:lastColon]
+			}
+			if score := fuzzyMatchScoreBySegments(segments, queryForSegment); score > 0 {
 				result = append(result, scoredItem{item: item, score: score})
 				continue
 			}
